@@ -67,7 +67,7 @@ CATALOGUE = [
 
 
 def make_copy(tag):
-    d = os.path.join(env.scratch_base(), "verif-mut", tag)
+    d = os.path.join(env.scratch_base(), "verif-mut", f"{tag}-{os.getpid()}")
     shutil.rmtree(d, ignore_errors=True)
     os.makedirs(d)
     shutil.copytree(os.path.join(REPO, "src"), os.path.join(d, "src"), ignore=shutil.ignore_patterns("__pycache__"))
@@ -159,7 +159,6 @@ def main(arg=None):
             print(f"MUTANT {mid}: SURVIVED quick checks {props}")
             results.append((mid, props[0], "survived"))
         sys.stdout.flush()
-    shutil.rmtree(os.path.join(env.scratch_base(), "verif-mut"), ignore_errors=True)
     k = sum(1 for r in results if r[2] == "killed")
     print(f"mutants: {k}/{len(results)} killed; survived: {[r[0] for r in results if r[2] == 'survived']}; stale: {[r[0] for r in results if r[2] == 'stale']}")
     return 0 if k == len(results) else 1
